@@ -36,7 +36,7 @@ func stateProj(s *schema.Schema) []string {
 			d := "-"
 			switch x := c.Default.(type) {
 			case *schema.Literal:
-				d = unq1(x.V)
+				d = x.V // the stored text itself: a quoted and an unquoted literal differ in type
 			case *schema.RawExpr:
 				d = x.X
 			}
